@@ -417,7 +417,7 @@ func genExtra(c *hmain.Ctx) {
 	}
 	var stCfgs []string
 	for _, f := range []string{"", "a", "a.b", "0"} {
-		for _, format := range []string{"", "unixtime", "unixtimenano", "timestampmilli", "2006-01-02", "rfc822"} {
+		for _, format := range []string{"", "unixtime", "unixtimenano", "timestampmilli", "2006-01-02", "rfc822", "timestampmicro"} {
 			for _, ov := range []string{"", "false"} {
 				var parts []string
 				if f != "" {
@@ -486,8 +486,8 @@ func genExtra(c *hmain.Ctx) {
 		sxStr("2021-06-22"), sxStr("nope"), sxStr(""), hx.I(0), sxNum("1.5"), sxNum("-1"), sxObj(kv("x", vNum)), sxArr(vNum), hx.L(hx.I(1), hx.I(0)), sxStr("Mon Jan  2 15:04:05 2006")}
 	var cdCfgs []string
 	for _, f := range []string{"", "a.b", "a.0"} {
-		for _, src := range [][]string{nil, {"rfc3339nano", "rfc3339", "unixtime"}, {"2006-01-02", "unixtimemilli", "ansic"}, {"unixtimemilli", "unixtime", "unixtimenano"}, {}} {
-			for _, tgt := range []string{"", "rfc3339", "unixtimenano", "2006/01/02 15:04:05", "unixtimemilli"} {
+		for _, src := range [][]string{nil, {"rfc3339nano", "rfc3339", "unixtime"}, {"2006-01-02", "unixtimemilli", "ansic"}, {"unixtimemilli", "unixtime", "unixtimemicro", "unixtimenano"}, {}} {
+			for _, tgt := range []string{"", "rfc3339", "unixtimenano", "2006/01/02 15:04:05", "unixtimemilli", "unixtimemicro"} {
 				for _, rof := range []bool{false, true} {
 					parts := []string{fmt.Sprintf(`"remove_on_fail":%v`, rof)}
 					if f != "" {
